@@ -56,17 +56,19 @@ class GearStress(HarnessBase):
     validate_max = 6
     max_paths = 200
 
-    def __init__(self, kind, role, own, mate, n=20, n_mate=30, helix=20.0, pa=20.0, units=None, idx=0):
+    def __init__(self, kind, role, own, mate, n=20, n_mate=30, helix=20.0, pa=20.0, units=None, idx=0, remate=False):
+        self.remate = remate
         self.kind, self.role = kind, role
         self.own, self.mate = tuple(own), tuple(mate)
         self.n, self.n_mate, self.helix, self.pa = n, n_mate, helix, pa
         self.units = dict(units or {})
-        self.name = 'stress:%s:%s:own=%s:mate=%s:n=%d/%d:helix=%s:pa=%s' % (
-            kind, role, '+'.join(own) or '-', '+'.join(mate) or '-', n, n_mate, helix, pa)
+        self.name = 'stress:%s:%s:own=%s:mate=%s:n=%d/%d:helix=%s:pa=%s%s' % (
+            kind, role, '+'.join(own) or '-', '+'.join(mate) or '-', n, n_mate, helix, pa, ':remated' if remate else '')
 
     def describe(self):
         return dict(kind=self.kind, role=self.role, own_data=self.own, mate_data=self.mate, teeth=self.n,
-                    mate_teeth=self.n_mate, helix=self.helix, pressure_angle=self.pa, units=self.units)
+                    mate_teeth=self.n_mate, helix=self.helix, pressure_angle=self.pa, units=self.units,
+                    mated_and_evaluated_with_another_mate_first=self.remate)
 
     def finding_key(self, ob, values):
         return 'stress:%s:%s:%s' % (self.kind, self.role, ob.family)
@@ -119,6 +121,34 @@ class GearStress(HarnessBase):
             shared = (S['m'], g.module)         # mating gears share the module (same physical value, same object)
         mt, SM = self._make(env, gu, mo, 'mate', mate_kind, self.mate, self.n_mate, shared_module=shared)
         rec = dict(S=S, SM=SM, flags_before=self._flags(g))
+        if self.remate:
+            # history: the gear was first mated with ANOTHER, fully specified mate (other teeth number / diameter / modulus,
+            # concrete) and its force and stresses were evaluated once; the relation is then re-declared with the real mate
+            J = gu.InertiaMoment(1, 'kgm^2')
+            if mate_kind == 'worm':
+                decoy = mo.WormGear(name='decoy', n_starts=3, inertia_moment=J, helix_angle=gu.Angle(self.helix, 'deg'),
+                                    pressure_angle=gu.Angle(self.pa, 'deg'), reference_diameter=gu.Length(37, 'mm'))
+            elif mate_kind == 'wheel':
+                decoy = mo.WormWheel(name='decoy', n_teeth=41, inertia_moment=J, helix_angle=gu.Angle(self.helix, 'deg'),
+                                     pressure_angle=gu.Angle(self.pa, 'deg'), module=gu.Length(2, 'mm'), face_width=gu.Length(9, 'mm'))
+            else:
+                kw = dict(name='decoy', n_teeth=self.n_mate + 17, inertia_moment=J, module=g.module,
+                          face_width=gu.Length(3, 'mm'), elastic_modulus=gu.Stress(70, 'GPa'))
+                decoy = mo.SpurGear(**kw) if mate_kind == 'spur' else \
+                    mo.HelicalGear(helix_angle=gu.Angle(self.helix, 'deg'), **kw)
+            m0, s0 = (g, decoy) if self.role == 'master' else (decoy, g)
+            if self.kind in ('spur', 'helical'):
+                add_gear_mating(master=m0, slave=s0, efficiency=0.8)
+            else:
+                add_worm_gear_mating(master=m0, slave=s0, friction_coefficient=0.05)
+            g.load_torque = g.driving_torque = gu.Torque(0.75, 'Nm')
+            f0 = self._flags(g)
+            if f0['force']:
+                g.compute_tangential_force()
+            if f0.get('bending'):
+                g.compute_bending_stress()
+            if self.kind in ('spur', 'helical') and f0.get('contact'):
+                g.compute_contact_stress()
         master, slave = (g, mt) if self.role == 'master' else (mt, g)
         if self.kind in ('spur', 'helical'):
             add_gear_mating(master=master, slave=slave, efficiency=0.9)
@@ -279,6 +309,12 @@ def specs(tier, seed):
                 cells.append(('helical', 'slave' if z % 2 else 'master', full, full, z, 30, hx, 20.0, ()))
     for hx in (0.0, 5.0, 45.0, 60.0, 89.9):
         cells.append(('helical', 'master', full, full, 25, 40, hx, 20.0, ()))
+    # 2b. the gear was mated with another mate and evaluated before (re-declared relation)
+    for kind, own, mate, n, nm in (('spur', full, full, 18, 50), ('helical', full, full, 25, 31),
+                                   ('wheel', ('module', 'face_width'), ('reference_diameter',), 30, 2),
+                                   ('worm', ('reference_diameter',), ('module', 'face_width'), 2, 30)):
+        for role in ('master', 'slave'):
+            cells.append((kind, role, own, mate, n, nm, 10.0 if kind in ('wheel', 'worm') else 20.0, 20.0, (), True))
     # 3. units
     # the gear and its mate give module, face width and elastic modulus in units of their own
     full = ('module', 'face_width', 'elastic_modulus')
@@ -301,8 +337,8 @@ def specs(tier, seed):
 
 def build(sp):
     _, i, cells = sp
-    return Batch('cells:%d' % i, [GearStress(k, r, own, mate, n, nm, hx, pa, dict(u), idx=i)
-                                  for (k, r, own, mate, n, nm, hx, pa, u) in cells])
+    return Batch('cells:%d' % i, [GearStress(c[0], c[1], c[2], c[3], c[4], c[5], c[6], c[7], dict(c[8]), idx=i,
+                                             remate=(len(c) > 9 and c[9])) for c in cells])
 
 
 JOB_CAP = {'quick': 900, 'thorough': 3000}
@@ -313,7 +349,8 @@ BOUNDS = {
              'both mates (sampled where no stress is computable); worm wheel (4 pressure angles, both roles, subsets of '
              '{module, face width} x worm with/without reference diameter) and worm gear; teeth numbers at table knots, '
              'midpoints, 499..520; helix 0..89.9 deg; module, face width in [0.1 mm, 10 m], moduli in [1e6, 1e13] Pa, worm '
-             'diameter and the reference torque (any real, either sign) symbolic; 8 seeded unit assignments',
+             'diameter and the reference torque (any real, either sign) symbolic; 8 seeded unit assignments (independent units for the '
+             'gear and its mate); every kind and role also after a first mating + evaluation with another mate (re-declared relation)',
     'thorough': 'every teeth number 10..520 for spur gears; helical gears at four helix angles; 32 unit assignments',
 }
 OUTSIDE = ('the Lewis factor of a helical gear uses tan(beta_b) = tan(beta) cos(alpha_t) (the code\'s, and the standard, '
